@@ -27,6 +27,8 @@ Regenerated:
                    the lost-last-frame test and tail
   _extract.py      allocation width, loop nesting (column position of feature f / interval v),
                    slice bounds
+  compose.py       the per-instance input of both row transformers (X[i].T, a fresh object per
+                   instance), the clone / output index, the factory dispatch (pinned)
   impute.py        data flow of the drift branch (what the trend is fitted on, what is filled);
                    all other branches must equal the reference (pandas call per method)
 numpy / pandas / scipy primitives stay hand-modelled in Model.v (tied by the correspondence run).
@@ -164,11 +166,12 @@ class Defs:
 
 def site(repo, rel, cls, ref_src, methods, opaque=()):
     """-> (Match, reference evaluator, actual evaluator)"""
-    ref_ev = Ev(ast.parse(ref_src), "Ref", opaque=opaque)
+    ref_ev = Ev(ast.parse(ref_src), "Ref" if cls is not None else None, opaque=opaque)
     act_ev = Ev(_load(repo, rel), cls, opaque=opaque)
     m = Match()
     for meth in methods:
-        _need(meth in act_ev.methods, "%s.%s is missing" % (cls, meth))
+        _need(meth in (act_ev.methods if cls is not None else act_ev.funcs),
+              "%s.%s is missing" % (cls, meth))
         p = ref_ev.summary(meth)
         a = act_ev.summary(meth)
         m.summary(p, a, "%s.%s" % (cls, meth))
@@ -760,6 +763,84 @@ def _impute(repo, d):
                "Definition gen_drift_fill_into : zsrc := %s.\n" % (fit_on, fill_into))
 
 
+# ------------------------------------------------------------------------------------------------
+# panel/compose.py : row transformers and their factory
+
+ROW_PREPARE = '''
+    def _prepare(self, X):
+        self.check_is_fitted()
+        assert hasattr(self, "_valid_transformer_type")
+        if self.check_transformer and not isinstance(
+                self.transformer, self._valid_transformer_type):
+            raise TypeError("")
+        X = check_X(X, coerce_to_numpy=True)
+        self.transformer_ = [clone(self.transformer) for _ in range(X.shape[0])]
+        return X
+'''
+
+ROW_S2S_REF = '''
+class Ref:
+    def transform(self, X, y=None):
+        X = self._prepare(X)
+        return pd.concat(
+            [from_2d_array_to_nested(self.transformer_[inst].fit_transform(_H_input).T).T
+             for inst in range(X.shape[0])], axis=0)
+''' + ROW_PREPARE
+
+ROW_S2P_REF = '''
+class Ref:
+    def transform(self, X, y=None):
+        X = self._prepare(X)
+        Xt = np.zeros(X.shape[:2])
+        for inst in range(X.shape[0]):
+            Xt[inst] = self.transformer_[inst].fit_transform(_H_input)
+        return pd.DataFrame(Xt)
+''' + ROW_PREPARE
+
+ROW_FACTORY_REF = '''
+def make_row_transformer(transformer, transformer_type=None, **kwargs):
+    if transformer_type is not None:
+        if transformer_type not in ("series-to-series", "series-to-primitives"):
+            raise ValueError("")
+    else:
+        if isinstance(transformer, _SeriesToSeriesTransformer):
+            transformer_type = "series-to-series"
+        elif isinstance(transformer, _SeriesToPrimitivesTransformer):
+            transformer_type = "series-to-primitives"
+        else:
+            raise TypeError("")
+    if transformer_type == "series-to-series":
+        return SeriesToSeriesRowTransformer(transformer, **kwargs)
+    else:
+        return SeriesToPrimitivesRowTransformer(transformer, **kwargs)
+'''
+
+
+def _rows(repo, d):
+    """every instance's clone of the wrapped transformer is applied to a FRESH per-instance object
+    that is a function of X and the instance index only (X[i].T); a buffer shared by the
+    iterations (generator helpers, np.copyto into one work array, ..) is not in the subset of the
+    evaluator and fails closed"""
+    rel = "sktime/transformations/panel/compose.py"
+    out = []
+    for cls, ref in (("SeriesToSeriesRowTransformer", ROW_S2S_REF),
+                     ("SeriesToPrimitivesRowTransformer", ROW_S2P_REF)):
+        m, rev, aev = site(repo, rel, cls, ref, ["transform"])
+        X = E(aev, "check_X(X, coerce_to_numpy=True)", X=("s", "X"))
+        inst = abv(m, rev, "inst")
+        h = m.holes["input"]
+        if canon(h) == canon(E(aev, "X[i].T", X=X, i=inst)):
+            out.append("RowInstanceT")
+        elif canon(h) == canon(E(aev, "X[i]", X=X, i=inst)):
+            out.append("RowInstance")
+        else:
+            raise Unsupported("row transformer input is not X[i].T: " + show(h)[:300])
+    site(repo, rel, None, ROW_FACTORY_REF, ["make_row_transformer"])
+    d.q.append("Inductive rowsrc := RowInstanceT | RowInstance.\n"
+               "Definition gen_row_s2s_input : rowsrc := %s.\n"
+               "Definition gen_row_s2p_input : rowsrc := %s.\n" % tuple(out))
+
+
 HEADER = """(* GENERATED by translator/closedform_c14.py from the sktime sources -- do not edit.
    Index arithmetic, the PAA loop body and the drift data flow of the closed-form transformers. *)
 From Coq Require Import QArith ZArith List Bool.
@@ -780,6 +861,7 @@ def translate(repo):
     _paa(repo, d)
     _rife(repo, d)
     _impute(repo, d)
+    _rows(repo, d)
     out = [HEADER]
     for name, params, ty, body in d.z:
         out.append("Definition %s (%s : Z) : %s := %s.\n" % (name, params, ty, body))
